@@ -1,6 +1,7 @@
 import WM.Lemmas.FaithfulTree
 import WM.Lemmas.AllIds
 import WM.Lemmas.AllIdsOver
+import WM.Lemmas.FaithfulReads
 /-!
 # C11 — every matcher is a faithful forward cursor over its result list
 
@@ -265,6 +266,120 @@ theorem program_replace (prog : List CmdR) (m : Any) (h : WF m.1 m.2) (L : Den)
       obtain ⟨c, r, h1, h2, h3, -⟩ := replace0 s m h
       obtain ⟨m', g1, g2⟩ := ih r h2 (by rw [h3]; exact hs)
       exact ⟨m', by simp only [runR, CmdR.run, Any.replace, h1, bind, Except.bind]; exact g1, g2⟩
+
+/-! ## the other reads of an entry: `weight()` and the number of `matching_terms()`
+
+`opsR k s` is the operation table of the tree with `score` replaced by the read `k`, `denR k s m` the remaining list
+of `(id, read)` entries (Layer S list algebra, `WM/Model/MatcherReads.lean`), `WFR k s` the invariant `WF` with the
+reads' lists in the alignment conditions. -/
+
+/-- the reads do not influence the cursor: the table of a read has the cursor operations of the tree itself -/
+theorem reads_move_alike (k : Rd) (s : Shape) :
+    (opsR k s).isActive = (ops s).isActive ∧ (opsR k s).id = (ops s).id ∧ (opsR k s).next = (ops s).next ∧
+      (opsR k s).skipTo = (ops s).skipTo ∧ (opsR k s).reset = (ops s).reset :=
+  let ⟨h1, h2, h3, h4, h5, _⟩ := tree_moveEq k s
+  ⟨h1, h2, h3, h4, h5⟩
+
+/-- a well-formed tree without MultiMatcher/ArrayUnionMatcher nodes is well formed for both reads, and a tree well
+    formed in both senses stands on the same document in `den` and in `denR` -/
+theorem reads_wf (k : Rd) (s : Shape) (m : St s) (hp : plain s = true) (h : WF s m) :
+    WFR k s m ∧ (∀ x r L, den s m = (x, r) :: L → ∃ w L', denR k s m = (x, w) :: L') ∧
+      (∀ x w L', denR k s m = (x, w) :: L' → ∃ r L, den s m = (x, r) :: L) :=
+  have hr := wfr_of_wf k s m hp h
+  ⟨hr, fun _ _ _ hd => read_of_head k s m h hr hd, fun _ _ _ hd => head_of_read k s m h hr hd⟩
+
+/-- on an active matcher the read returns the value of the head entry, and `next()` (of the tree) drops exactly
+    that entry from the reads' list too -/
+theorem read_next (k : Rd) (s : Shape) (m : St s) (h : WFR k s m) (ha : (ops s).isActive m = true) :
+    ∃ x w L m', denR k s m = (x, w) :: L ∧ (ops s).id m = .ok x ∧ read k s m = .ok w ∧
+      (ops s).next m = .ok m' ∧ WFR k s m' ∧ denR k s m' = L ∧ fullR k s m' = fullR k s m := by
+  have FR := tree_faithfulR k s
+  obtain ⟨e1, e2, e3, -⟩ := tree_moveEq k s
+  rw [← e1] at ha
+  obtain ⟨x, w, L, hd⟩ := exists_cons_of_ne_nil ((FR.active m h).1 ha)
+  obtain ⟨m', h1, h2, h3, -, h5⟩ := FR.next m x w L h hd
+  exact ⟨x, w, L, m', hd, by rw [← e2]; exact FR.id m x w L h hd, FR.score m x w L h hd, by rw [← e3]; exact h1,
+    h2, h3, h5⟩
+
+/-- `skip_to(t)` lands on the first entry with id ≥ t of the reads' list too -/
+theorem read_skipTo (k : Rd) (s : Shape) (m : St s) (t : Nat) (h : WFR k s m) (ha : (ops s).isActive m = true) :
+    ∃ m', (ops s).skipTo m t = .ok m' ∧ WFR k s m' ∧ denR k s m' = dropBelow t (denR k s m) ∧
+      fullR k s m' = fullR k s m := by
+  have FR := tree_faithfulR k s
+  obtain ⟨e1, -, -, e4, -⟩ := tree_moveEq k s
+  rw [← e1] at ha
+  obtain ⟨m', h1, h2, h3, -, -, h6⟩ := FR.skipTo m t h ((FR.active m h).1 ha)
+  exact ⟨m', by rw [← e4]; exact h1, h2, h3, h6⟩
+
+/-- path independence of the reads: whatever program of `next`/`skip_to`/`reset` calls is allowed on the list
+    model runs without error on the matcher (the same run as in `program`) and leaves it on exactly the list of
+    `(id, read)` entries the model predicts - so `weight()` and the number of `matching_terms()` read there are
+    those of the head entry, whatever calls led to it. -/
+theorem program_reads (k : Rd) (s : Shape) (prog : List Cmd) (m : St s) (h : WFR k s m) (F L : Den)
+    (hs : runSpec prog (fullR k s m, denR k s m) = some (F, L)) :
+    ∃ m', run s prog m = .ok m' ∧ WFR k s m' ∧ denR k s m' = L ∧ fullR k s m' = F ∧
+      ∀ x w L', L = (x, w) :: L' → (ops s).id m' = .ok x ∧ read k s m' = .ok w := by
+  have FR := tree_faithfulR k s
+  obtain ⟨-, e2, e3, e4, e5, -⟩ := tree_moveEq k s
+  induction prog generalizing m with
+  | nil =>
+    simp only [runSpec, Option.some.injEq, Prod.mk.injEq] at hs
+    refine ⟨m, rfl, h, hs.2, hs.1, fun x w L' hL => ?_⟩
+    have hd : denR k s m = (x, w) :: L' := by rw [hs.2, hL]
+    exact ⟨by rw [← e2]; exact FR.id m x w L' h hd, FR.score m x w L' h hd⟩
+  | cons c cs ih =>
+    simp only [runSpec] at hs
+    cases c with
+    | next =>
+      cases hd : denR k s m with
+      | nil => rw [hd] at hs; simp [Cmd.spec] at hs
+      | cons p L' =>
+        obtain ⟨x, r⟩ := p
+        rw [hd] at hs
+        simp only [Cmd.spec, Option.bind_some] at hs
+        obtain ⟨m1, h1, h2, h3, -, h5⟩ := FR.next m x r L' h hd
+        obtain ⟨m', g1, g2⟩ := ih m1 h2 (by rw [h3, h5]; exact hs)
+        rw [e3] at h1
+        exact ⟨m', by simp [run, Cmd.run, h1, g1, Except.bind], g2⟩
+    | skipTo t =>
+      cases hd : denR k s m with
+      | nil => rw [hd] at hs; simp [Cmd.spec] at hs
+      | cons p L' =>
+        rw [hd] at hs
+        simp only [Cmd.spec, Option.bind_some] at hs
+        obtain ⟨m1, h1, h2, h3, -, -, h6⟩ := FR.skipTo m t h (by rw [hd]; simp)
+        obtain ⟨m', g1, g2⟩ := ih m1 h2 (by rw [h3, h6, hd]; exact hs)
+        rw [e4] at h1
+        exact ⟨m', by simp [run, Cmd.run, h1, g1, Except.bind], g2⟩
+    | reset =>
+      simp only [Cmd.spec, Option.bind_some] at hs
+      obtain ⟨m1, h1, h2, h3, h4⟩ := FR.reset m h
+      obtain ⟨m', g1, g2⟩ := ih m1 h2 (by rw [h3, h4]; exact hs)
+      rw [e5] at h1
+      exact ⟨m', by simp [run, Cmd.run, h1, g1, Except.bind], g2⟩
+
+/-- `AndMaybe([1, 5, 9] weights 1 2 3, [1, 5] weights 1 1)` under a boost of 2: the lists of weights and of
+    matching-term counts; after `next, next` the matcher stands on document 9, beyond the optional side's last
+    posting - where the pinned `AndMaybeMatcher.weight()` raised IndexError (repaired) -/
+def exReads : St (.boost (.andMaybe .list .list)) :=
+  ⟨⟨⟨[1, 5, 9], [1, 2, 3], 0, true⟩, ⟨[1, 5], [1, 1], 0, true⟩⟩, 2⟩
+
+example : plain (.boost (.andMaybe .list .list)) = true ∧ WF _ exReads := by
+  refine ⟨rfl, ⟨by decide, rfl⟩, ⟨by decide, rfl⟩, ?_⟩
+  intro x r La y s Lb h1 h2
+  have e1 : ListM.den exReads.child.a = [(1, 1), (5, 2), (9, 3)] := by decide +kernel
+  have e2 : ListM.den exReads.child.b = [(1, 1), (5, 1)] := by decide +kernel
+  change ListM.den exReads.child.a = _ at h1
+  change ListM.den exReads.child.b = _ at h2
+  rw [e1] at h1; rw [e2] at h2
+  cases h1; cases h2; exact Nat.le_refl _
+
+example : denR .weight _ exReads = [(1, 4), (5, 6), (9, 6)] ∧ denR .terms _ exReads = [(1, 2), (5, 2), (9, 1)] ∧
+    ((run _ [.next, .next] exReads).bind (read .weight _)).toOption = some 6 ∧
+    ((run _ [.skipTo 7] exReads).bind (read .terms _)).toOption = some 1 ∧
+    runSpec [.next, .next] ([(1, 4), (5, 6), (9, 6)], [(1, 4), (5, 6), (9, 6)]) =
+      some ([(1, 4), (5, 6), (9, 6)], [(9, 6)]) := by
+  refine ⟨?_, ?_, ?_, ?_, ?_⟩ <;> decide +kernel
 
 /-! ## non-vacuity: a concrete well-formed tree on which every hypothesis above holds -/
 
